@@ -105,7 +105,12 @@ def replay_inputs(contract, inputs):
         if not rep["pre_ok"]:
             return rep
         before = {m: lower(names[m]) for m in contract.mutates}
+        snap_before = {k: repr(describe(v)) for k, v in inputs.items() if k not in contract.mutates}
         kind, out = run_native(fn, args, kwargs)
+        snap_after = {k: repr(describe(v)) for k, v in inputs.items() if k not in contract.mutates}
+        if getattr(contract, "frame_args", True) and snap_before != snap_after:
+            rep["failed"].append("frame.arguments-not-mutated")
+            rep["mutated"] = {k: [snap_before[k], snap_after[k]] for k in snap_before if snap_before[k] != snap_after[k]}
         for m in contract.mutates:
             A[m] = before[m]
             A["final_" + m] = lower(names[m])
